@@ -265,6 +265,11 @@ def run(ctx: Ctx) -> None:
     _input_stream(ctx)
 
 
+def input_stream_rule(ctx: Ctx, rule: str) -> None:
+    """the same table, reported under another property's rule id (C10 shares it)."""
+    _input_stream(ctx, rule)
+
+
 def _loop_guards(cfg: CFG, node: Node, loop: ast.AST) -> set[str]:
     """guards of node that are tests located inside the loop body (not the loop condition)."""
     out = set()
@@ -297,7 +302,7 @@ def _reaches_underlying(cfg: CFG, test: Node, label: str, under: list[ast.Call])
     return any((cfg.node_of(c).id in r) for c in under if cfg.node_of(c) is not None)
 
 
-def _input_stream(ctx: Ctx) -> None:
+def _input_stream(ctx: Ctx, RULE: str = "R9.6") -> None:
     repo = ctx.repo
     gi = repo.func("wsgi.get_input_stream")
     ctx.saw(gi)
@@ -315,7 +320,7 @@ def _input_stream(ctx: Ctx) -> None:
             rows.append((r, v.orelse, g | {f"{norm(v.test)}:F"}))
         else:
             rows.append((r, v, g))
-    ctx.floor("R9.6", "return rows", len(rows), 4)
+    ctx.floor(RULE, "return rows", len(rows), 4)
     TERM = "'wsgi.input_terminated' in environ"
     for r, v, g in rows:
         vs = norm(v)
@@ -345,7 +350,7 @@ def _input_stream(ctx: Ctx) -> None:
         else:
             ok = False
             exp = "unexpected return value"
-        ctx.ob("R9.6", f"return `{vs}`", ok, f"{exp}; dominating guards {sorted(g)}", gi, r, f"return {vs} under {sorted(g)}")
+        ctx.ob(RULE, f"return `{vs}`", ok, f"{exp}; dominating guards {sorted(g)}", gi, r, f"return {vs} under {sorted(g)}")
     # the declared-length test: raise RequestEntityTooLarge under content_length > max; every return avoids its true edge
     raises = [n for n in cfg.nodes if isinstance(n.ast, ast.Raise) and astq.raised_name(n.ast) == "RequestEntityTooLarge"]
     ok = False
@@ -362,12 +367,12 @@ def _input_stream(ctx: Ctx) -> None:
         )
         ok = need <= g and cmp_ok and dominated and g == need | (g & {"content_length > max_content_length:T", "max_content_length < content_length:T"})
         fact = f"raise guards {sorted(g)}; comparison precedes every return when both values are present: {dominated}"
-    ctx.ob("R9.6", "declared length above the maximum is refused before any stream is returned", ok, fact, gi, raises[0].ast if raises else gi.node, "declared length test")
+    ctx.ob(RULE, "declared length above the maximum is refused before any stream is returned", ok, fact, gi, raises[0].ast if raises else gi.node, "declared length test")
     # slots: stream / content_length definitions
     d1 = [norm(v) for _, v in astq.assigns_to(gi.node, "content_length") if v is not None]
-    ctx.ob("R9.6", "content_length comes from get_content_length(environ)", d1 == ["get_content_length(environ)"], f"{d1}", gi, gi.node, "content_length source")
+    ctx.ob(RULE, "content_length comes from get_content_length(environ)", d1 == ["get_content_length(environ)"], f"{d1}", gi, gi.node, "content_length source")
     d2 = [norm(v) for _, v in astq.assigns_to(gi.node, "stream") if v is not None]
-    ctx.ob("R9.6", "stream is environ['wsgi.input']", len(d2) == 1 and "environ['wsgi.input']" in d2[0], f"{d2}", gi, gi.node, "stream source")
+    ctx.ob(RULE, "stream is environ['wsgi.input']", len(d2) == 1 and "environ['wsgi.input']" in d2[0], f"{d2}", gi, gi.node, "stream source")
 
     # get_content_length (sansio) is total
     gl = repo.func("sansio.utils.get_content_length")
@@ -384,7 +389,7 @@ def _input_stream(ctx: Ctx) -> None:
     first_if = [n for n in gl.node.body if isinstance(n, ast.If)]
     cond = norm(first_if[0].test) if first_if else ""
     cond_ok = "http_transfer_encoding == 'chunked'" in cond and "http_content_length is None" in cond and " or " in cond
-    ctx.ob("R9.6", "get_content_length: chunked or absent -> None; max(0, plain int); ValueError -> 0", none_ok and len(maxes) == 1 and h_ok and cond_ok, f"returns {sorted(table)}; first test `{cond}`", gl, gl.node, "get_content_length table")
+    ctx.ob(RULE, "get_content_length: chunked or absent -> None; max(0, plain int); ValueError -> 0", none_ok and len(maxes) == 1 and h_ok and cond_ok, f"returns {sorted(table)}; first test `{cond}`", gl, gl.node, "get_content_length table")
     pi = repo.func("_internal._plain_int")
     ctx.saw(pi)
     folder = Folder(repo)
@@ -402,9 +407,9 @@ def _input_stream(ctx: Ctx) -> None:
             raises_ve = any(astq.raised_name(r) == "ValueError" for r in astq.raises_of(pi.node))
             ok = digits_only and raises_ve
             fact = f"pattern {rx.pattern!r} flags={rx.flags}: ASCII digits only={digits_only}; raises ValueError on mismatch={raises_ve}"
-    ctx.ob("R9.6", "_plain_int accepts only ASCII digits (optional sign) and raises ValueError otherwise", ok, fact, pi, pi.node, "_plain_int pattern")
+    ctx.ob(RULE, "_plain_int accepts only ASCII digits (optional sign) and raises ValueError otherwise", ok, fact, pi, pi.node, "_plain_int pattern")
     # wsgi.get_content_length forwards the two environ variables
     wg = repo.func("wsgi.get_content_length")
     ctx.saw(wg)
     s = norm(wg.node)
-    ctx.ob("R9.6", "wsgi.get_content_length reads CONTENT_LENGTH and HTTP_TRANSFER_ENCODING", "environ.get('CONTENT_LENGTH')" in s and "environ.get('HTTP_TRANSFER_ENCODING')" in s, "", wg, wg.node, "environ keys")
+    ctx.ob(RULE, "wsgi.get_content_length reads CONTENT_LENGTH and HTTP_TRANSFER_ENCODING", "environ.get('CONTENT_LENGTH')" in s and "environ.get('HTTP_TRANSFER_ENCODING')" in s, "", wg, wg.node, "environ keys")
